@@ -18,27 +18,64 @@ Variable H : list byte -> list byte.
 Variable g : N.
 Variable v1 : bool.
 Variable rt : option addr.
+Variable fl : value -> bool -> Prop.
+Hypothesis Hfl : forall v, fl v (must_hash v1 v).
 
 Notation pre := (Spec.pre H g rt).
 Notation post := (Spec.post H g rt).
 Notation leaf_tree := (Insert.leaf_tree g v1).
 
+Notation lwf := (Erase.lwf fl).
+
 Definition result_er (m : mem) (t : atree) (m' : mem) (a' : addr) (mut : bool) (k : key) (v : value) : Prop :=
   (mut = false /\ m' = m /\ a' = aroot t /\ pins (er t) k v = er t)
   \/ (mut = true /\ exists t', aroot t' = a' /\ post m t m' t' /\ er t' = pins (er t) k v /\ lwf t').
 
+Definition flagok (sv : option value) (mbh : bool) : Prop := forall v, sv = Some v -> fl v mbh.
+Lemma flagok_some v : flagok (Some v) (must_hash v1 v).
+Proof. intros w E. inversion E; subst. apply Hfl. Qed.
+Lemma flagok_none b : flagok None b.
+Proof. intros w E. discriminate. Qed.
+
 Lemma lwf_leaf_tree a pk v : lwf (leaf_tree a pk v).
-Proof. apply lwf_unfold. split; [congruence|]. intros k []. Qed.
+Proof.
+  apply lwf_unfold. split; [congruence|]. split; [apply flagok_some|]. split; [reflexivity|]. intros k [].
+Qed.
 Lemma er_leaf_tree a pk v : er (leaf_tree a pk v) = Leaf pk v.
 Proof. reflexivity. Qed.
 
-Lemma lwf_kid t k : lwf t -> In (Some k) (akids t) -> lwf k.
-Proof. destruct t. rewrite lwf_unfold. simpl. intros (_ & Hk); auto. Qed.
-
-Lemma lwf_one i T : lwf T -> forall k, In (Some k) (set_nth i (Some T) no_akids) -> lwf k.
-Proof. intros HT k Hin. apply in_one_kid in Hin. now subst. Qed.
-Lemma lwf_two i j T L : lwf T -> lwf L -> forall k, In (Some k) (set_nth j (Some L) (set_nth i (Some T) no_akids)) -> lwf k.
-Proof. intros HT HL k Hin. apply in_two_kids in Hin. destruct Hin; now subst. Qed.
+Lemma lwf_flag a pk sv mbh gn isb ks : lwf (AN a pk sv mbh gn isb ks) -> flagok sv mbh.
+Proof. rewrite lwf_unfold. tauto. Qed.
+Lemma lwf_retag a pk sv mbh gn isb ks a' pk' gn' :
+  lwf (AN a pk sv mbh gn isb ks) -> lwf (AN a' pk' sv mbh gn' isb ks).
+Proof. rewrite !lwf_unfold. tauto. Qed.
+Lemma lwf_setval a pk sv mbh gn isb ks a' gn' v :
+  lwf (AN a pk sv mbh gn isb ks) -> lwf (AN a' pk (Some v) (must_hash v1 v) gn' isb ks).
+Proof.
+  rewrite !lwf_unfold. intros (_ & _ & Hlen & Hk). split; [congruence|]. split; [apply flagok_some | auto].
+Qed.
+Lemma lwf_setkid a pk sv mbh gn ks a' gn' i x :
+  lwf (AN a pk sv mbh gn true ks) -> lwf x -> lwf (AN a' pk sv mbh gn' true (set_nth i (Some x) ks)).
+Proof.
+  rewrite !lwf_unfold. intros (_ & Hf & Hlen & Hk) Hx. split; [congruence|]. split; auto.
+  split; [rewrite set_nth_length; auto|].
+  intros k Hin. apply in_set_nth_some in Hin. destruct Hin as [E|(j & _ & E)].
+  - inversion E; subst; auto.
+  - apply Hk. rewrite <- E. apply nth_In. destruct (Nat.lt_ge_cases j (length ks)); auto.
+    rewrite nth_overflow in E by auto. discriminate.
+Qed.
+Lemma len_no_akids : length no_akids = 16.
+Proof. reflexivity. Qed.
+Lemma lwf_b0 a pk sv mbh gn : flagok sv mbh -> lwf (AN a pk sv mbh gn true no_akids).
+Proof.
+  intros Hf. apply lwf_unfold. split; [congruence|]. split; auto. split; [reflexivity|].
+  intros k Hk. destruct (in_no_akids k Hk).
+Qed.
+Lemma lwf_b1 a pk sv mbh gn i T : flagok sv mbh -> lwf T -> lwf (AN a pk sv mbh gn true (set_nth i (Some T) no_akids)).
+Proof. intros Hf HT. apply (lwf_setkid a pk sv mbh gn no_akids); auto. apply lwf_b0; auto. Qed.
+Lemma lwf_b2 a pk sv mbh gn i j T L :
+  flagok sv mbh -> lwf T -> lwf L -> lwf (AN a pk sv mbh gn true (set_nth j (Some L) (set_nth i (Some T) no_akids))).
+Proof. intros Hf HT HL. apply (lwf_setkid a pk sv mbh gn (set_nth i (Some T) no_akids)); auto. apply lwf_b1; auto. Qed.
 
 Lemma er_branch_one a pk sv mbh gn i T :
   er (AN a pk sv mbh gn true (set_nth i (Some T) no_akids)) = Branch pk sv (set_child no_children i (Some (er T))).
@@ -80,7 +117,7 @@ Proof.
     + unfold t. rewrite !er_unfold. destruct isb.
       * now rewrite InsertProofs.insert_branch_same.
       * simpl. now rewrite InsertProofs.insert_in_leaf_same.
-    + apply lwf_unfold. split; [congruence|]. intros k Hk. apply (lwf_kid t k Hl Hk).
+    + apply (lwf_setval a pk sv mbh gn isb ks); auto.
 Qed.
 
 Lemma insert_in_leaf_spec_er m a pk sv mbh gn ks c k value m' a' mut :
@@ -93,10 +130,11 @@ Proof.
   assert (Epk : c_pk c = pk) by (unfold t, cell_is in Hci; tauto). rewrite Epk.
   assert (Esv : c_sv c = sv) by (unfold t, cell_is in Hci; tauto).
   assert (Hlv : exists lv, sv = Some lv).
-  { unfold t in Hl. apply lwf_unfold in Hl. destruct Hl as (Hs & _). destruct sv; eauto. exfalso; apply Hs; auto. }
+  { pose proof Hl as Hl0. unfold t in Hl0. apply lwf_unfold in Hl0. destruct Hl0 as (Hs & _). destruct sv; eauto. exfalso; apply Hs; auto. }
   destruct Hlv as (lv & Elv).
   assert (Eer : er t = Leaf pk lv) by (unfold t; rewrite er_unfold, Elv; reflexivity).
-  assert (Hlk : forall k0, In (Some k0) ks -> lwf k0) by (intros k0 Hk0; apply (lwf_kid t k0 Hl Hk0)).
+  assert (Hlk : forall k0, In (Some k0) ks -> lwf k0) by (intros k0 Hk0; apply (lwf_kid _ t k0 Hl Hk0)).
+  assert (Embh' : c_mbh c = mbh) by (unfold t, cell_is in Hci; tauto).
   unfold result_er. rewrite Eer. cbn [Trie.Model.insert]. unfold Trie.Model.insert_in_leaf.
   destruct (key_eqb pk k) eqn:Ek.
   { apply NibblesProofs.key_eqb_eq in Ek. subst k. intros E.
@@ -114,13 +152,13 @@ Proof.
       * reflexivity.
       * split.
         -- rewrite er_branch_one, er_unfold, Elv. reflexivity.
-        -- apply lwf_unfold. split; [congruence|]. apply lwf_one. apply lwf_unfold. split; [rewrite Elv; congruence | auto].
+        -- apply lwf_b1; [apply flagok_some | apply (lwf_retag a pk sv mbh gn false ks); exact Hl].
     + rewrite alloc_eq. intros E. injection E as Em Ea Emut. subst m' a' mut.
       right. split; auto. eexists.
       split; [|split; [exact (hang_none H g rt m t (firstn (cpl k pk) k) (Some value) (must_hash v1 value) Hp)|]].
       * reflexivity.
       * split; [rewrite er_branch_none; reflexivity|].
-        apply lwf_unfold. split; [congruence|]. intros k0 Hk0. destruct (in_no_akids k0 Hk0).
+        apply lwf_b0. apply flagok_some.
   - destruct (length pk =? cpl k pk).
     + rewrite (alloc_eq m). cbv zeta. rewrite alloc_eq. intros E. injection E as Em Ea Emut. subst m' a' mut.
       right. split; auto. eexists.
@@ -128,7 +166,7 @@ Proof.
       * reflexivity.
       * split.
         -- rewrite er_branch_one, er_leaf_tree, Esv, Elv. reflexivity.
-        -- apply lwf_unfold. split; [congruence|]. apply lwf_one. apply lwf_leaf_tree.
+        -- apply lwf_b1; [rewrite Esv, Embh'; apply (lwf_flag a pk sv mbh gn false ks Hl) | apply lwf_leaf_tree].
     + destruct (prep H g rt m a true) as [m1 a1] eqn:Ep.
       rewrite (alloc_eq (wr m1 a1 _)). cbv zeta. rewrite alloc_eq. intros E. injection E as Em Ea Emut. subst m' a' mut.
       right. split; auto.
@@ -139,17 +177,7 @@ Proof.
       * reflexivity.
       * split.
         -- rewrite er_branch_two, er_leaf_tree, er_unfold, Elv. reflexivity.
-        -- apply lwf_unfold. split; [congruence|]. apply lwf_two; [|apply lwf_leaf_tree].
-           apply lwf_unfold. split; [rewrite Elv; congruence | auto].
-Qed.
-
-Lemma lwf_set_nth ks i x :
-  (forall k, In (Some k) ks -> lwf k) -> lwf x -> forall k, In (Some k) (set_nth i (Some x) ks) -> lwf k.
-Proof.
-  intros Hk Hx k Hin. apply in_set_nth_some in Hin. destruct Hin as [E|(j & _ & E)].
-  - inversion E; subst; auto.
-  - apply Hk. rewrite <- E. apply nth_In. destruct (Nat.lt_ge_cases j (length ks)); auto.
-    rewrite nth_overflow in E by auto. discriminate.
+        -- apply lwf_b2; [apply flagok_none | apply (lwf_retag a pk sv mbh gn false ks); exact Hl | apply lwf_leaf_tree].
 Qed.
 
 Lemma insert_spec_er : forall fuel m t k value m' a' mut,
@@ -162,7 +190,8 @@ Proof.
   destruct (rep_cell _ _ Hr) as (c & Hca & Hci). simpl in Hca.
   assert (Hb : forall x, In x (addrs t) -> (x < nx m)%N) by (intros; eapply rep_bounded; eauto).
   pose proof Hci as Hci'. unfold t, cell_is in Hci'. destruct Hci' as (Epk & Esv & Embh & Egn & Eisb & Eks).
-  assert (Hlk : forall k0, In (Some k0) ks -> lwf k0) by (intros k0 Hk0; apply (lwf_kid t k0 Hl Hk0)).
+  assert (Hlk : forall k0, In (Some k0) ks -> lwf k0) by (intros k0 Hk0; apply (lwf_kid _ t k0 Hl Hk0)).
+  assert (Embh' : c_mbh c = mbh) by (unfold t, cell_is in Hci; tauto).
   change (aroot t) with a. cbn [insert]. rewrite Hca. rewrite Eisb.
   destruct isb; cbn [negb].
   2:{ apply insert_in_leaf_spec_er; auto. }
@@ -189,7 +218,7 @@ Proof.
         intros E. injection E as Em Ea Emut. subst m' a' mut. right. split; auto.
         exists (AN a2 pk sv mbh g true (set_nth idx (Some tk) ks)). split; auto. split; [|split].
         2:{ rewrite er_unfold, map_ero_set_nth. simpl ero. rewrite Etk. reflexivity. }
-        2:{ apply lwf_unfold. split; [congruence|]. apply lwf_set_nth; auto. }
+        2:{ apply (lwf_setkid a pk sv mbh gn ks); auto. }
         pose proof Hq as (_ & _ & _ & _ & Hw1 & Hle1 & F1 & P8 & _).
         assert (Hna : ~ In a (addrs kt)) by (apply (sep_root_not_in_kid t kt Hs Hkin)).
         assert (Hca1 : hp m1 a = Some c).
@@ -225,7 +254,7 @@ Proof.
       intros E. injection E as Em Ea Emut. subst m' a' mut. right. split; auto.
       exists (AN a2 pk sv mbh g true (set_nth idx (Some (leaf_tree (nx m) rk value)) ks)). split; auto. split; [|split].
       2:{ rewrite er_unfold, map_ero_set_nth. reflexivity. }
-      2:{ apply lwf_unfold. split; [congruence|]. apply lwf_set_nth; auto. apply lwf_leaf_tree. }
+      2:{ apply (lwf_setkid a pk sv mbh gn ks); auto. apply lwf_leaf_tree. }
       assert (Hw1 : hwf m1) by (apply hwf_alloc; auto).
       assert (Hold : forall x, (x < nx m)%N -> hp m1 x = hp m x) by (intros; apply alloc_old; auto).
       assert (Hn : ~ In (nx m) (addrs t)) by (intros Hx; specialize (Hb _ Hx); lia).
@@ -250,13 +279,13 @@ Proof.
     destruct (prep H g rt m a true) as [m1 a1] eqn:Ep.
     pose proof (move_down H g rt m a pk sv mbh gn true ks c (skipn (S (cpl k pk)) pk) m1 a1 Hp Hca Hci Ep) as HT1.
     assert (HlT : lwf (AN a1 (skipn (S (cpl k pk)) pk) sv mbh g true ks)).
-    { apply lwf_unfold. split; [congruence | auto]. }
+    { apply (lwf_retag a pk sv mbh gn true ks); exact Hl. }
     destruct (length k <=? cpl k pk).
     + rewrite alloc_eq. intros E. injection E as Em Ea Emut. subst m' a' mut. right. split; auto.
       eexists. split; [|split; [exact (hang_one H g rt m t _ _ (nth (cpl k pk) pk 0) (firstn (cpl k pk) k) (Some value) (must_hash v1 value) Hp HT1)|]].
       * reflexivity.
       * split; [rewrite er_branch_one, er_unfold; reflexivity|].
-        apply lwf_unfold. split; [congruence|]. apply lwf_one; auto.
+        apply lwf_b1; [apply flagok_some | auto].
     + rewrite (alloc_eq (wr m1 a1 _)). cbv zeta. rewrite alloc_eq.
       intros E. injection E as Em Ea Emut. subst m' a' mut. right. split; auto.
       eexists.
@@ -264,7 +293,7 @@ Proof.
                                 (firstn (cpl k pk) k) None false Hp HT1)|]].
       * reflexivity.
       * split; [rewrite er_branch_two, er_leaf_tree, er_unfold; reflexivity|].
-        apply lwf_unfold. split; [congruence|]. apply lwf_two; auto. apply lwf_leaf_tree.
+        apply lwf_b2; [apply flagok_none | auto | apply lwf_leaf_tree].
 Qed.
 
 End InsertPure.
